@@ -139,19 +139,13 @@ theorem fm_readEnv : ∀ name args pos skip tol mode ts r,
   by_cases herr : envError name be.2 = true
   · rw [if_pos herr] at h ⊢; exact h
   · rw [if_neg herr] at h ⊢
-    cases hs : (readSpacer (ts1.drop 2)).2 with
-    | nil => rw [hs] at h; exact h
-    | cons o r' =>
-      rw [hs] at h
+    cases ts1 with
+    | nil => exact h
+    | cons t0 r0 =>
       simp only at h ⊢
-      cases hg : gkindOfBegin o.cat with
-      | none => rw [hg] at h; exact h
-      | some k =>
-        rw [hg] at h
-        simp only at h ⊢
-        obtain ⟨g, ts2, ha, h⟩ := Res.bind_eq_ok.mp h
-        rw [hA _ _ _ _ _ _ ha]
-        exact h
+      obtain ⟨na, ts2, ha, h⟩ := Res.bind_eq_ok.mp h
+      rw [hC _ _ _ _ _ _ ha]
+      exact h
 
 theorem fm_readEnvBody : ∀ skip tol mode ts r, readEnvBody (f+1) skip tol mode ts = .ok r →
     readEnvBody (f+1+1) skip tol mode ts = .ok r := by
@@ -319,6 +313,24 @@ theorem readArg_fuel_det {f1 f2 : Nat} {k pos tol mode ts} {r1 r2 : Expr × List
     induction d with
     | zero => intro f r h; exact h
     | succ d ihd => intro f r h; exact (fuelMonoAt (f + d)).2.2.2.2.2.2.2.2.2.2.1 _ _ _ _ _ _ (ihd f r h)
+  rcases Nat.le_total f1 f2 with hle | hle
+  · obtain ⟨d, rfl⟩ := Nat.exists_eq_add_of_le hle
+    have := up d f1 r1 h1
+    rw [this] at h2; exact Except.ok.inj h2
+  · obtain ⟨d, rfl⟩ := Nat.exists_eq_add_of_le hle
+    have := up d f2 r2 h2
+    rw [this] at h1; exact (Except.ok.inj h1).symm
+
+/-- `readCommand` gives the same result with any two fuels that both succeed. -/
+theorem readCommand_fuel_det {f1 f2 : Nat} {nreq nopt tol mode ts} {r1 r2 : (Tok × List Expr) × List Tok}
+    (h1 : readCommand f1 nreq nopt tol mode ts = .ok r1) (h2 : readCommand f2 nreq nopt tol mode ts = .ok r2) :
+    r1 = r2 := by
+  have up : ∀ d f r, readCommand f nreq nopt tol mode ts = .ok r →
+      readCommand (f + d) nreq nopt tol mode ts = .ok r := by
+    intro d
+    induction d with
+    | zero => intro f r h; exact h
+    | succ d ihd => intro f r h; exact (fuelMonoAt (f + d)).2.2.2.2.2.2.1 _ _ _ _ _ _ (ihd f r h)
   rcases Nat.le_total f1 f2 with hle | hle
   · obtain ⟨d, rfl⟩ := Nat.exists_eq_add_of_le hle
     have := up d f1 r1 h1
